@@ -146,10 +146,8 @@ def generate(tier, seed):
                       'label': 'bad definition (%s): %s' % (name, po)})
     # a task whose two programs share the private predicate r/1: the program's copy is emitted under another name, and
     # neither name may be (re)defined by the outline - such a definition would be an axiom about the program's predicate
-    for name, po in (('taken predicate (shared private)', 'definition: forall X (r(X) <-> q(X)).'),
-                     ('taken predicate (renamed shared private)', 'definition: forall X (r_p(X) <-> q(X)).'),
-                     ('taken predicate (renamed shared private) with a lemma',
-                      'definition: forall X (r_p(X) <-> q(X)). lemma: forall X (r_p(X) <-> q(X) and not p(X)).')):
+    # (the emitted name of the renamed copy is not assumed here: the `emitted-names-taken` items below read it off the problems)
+    for name, po in (('taken predicate (shared private)', 'definition: forall X (r(X) <-> q(X)).'),):
         items.append({'family': 'definition-acceptance', 'task': BASE_TASKS[3], 'outline': po, 'expect_refused': name,
                       'label': 'bad definition on a task with a shared private predicate (%s): %s' % (name, po)})
     for t in BASE_TASKS:
